@@ -37,11 +37,27 @@ def piece_of(g, e6):
     raise ValueError(e6)
 
 
+_STRAIGHT = {}
+
+
+def piece_class(g, e6):
+    """'straight' / 'curved' for the piece carrying the leaf (by geometry: three collinear points), so that custom curves
+    mixing straight and curved pieces are classified piece by piece."""
+    i = piece_of(g, e6)
+    k = (id(g), i)
+    if k not in _STRAIGHT:
+        a, b = float(g.pw_start[i]), float(g.pw_start[i + 1])
+        P_ = np.asarray(g.pw_gamma[i](np.array([a, a + 0.3 * (b - a), a + 0.7 * (b - a)])), dtype=float)
+        u, v = P_[:, 1] - P_[:, 0], P_[:, 2] - P_[:, 0]
+        _STRAIGHT[k] = abs(u[0] * v[1] - u[1] * v[0]) <= 1e-12 * (b - a)**2
+    return 'straight' if _STRAIGHT[k] else 'curved'
+
+
 def arc_segments(g, e1, e2):
     """Union arc of two space-adjacent leaves (or one leaf) as ordered segments; also its class."""
     L = float(g.gamma_length)
     if e2 is None:
-        return [(g.pw_gamma[piece_of(g, e1)], e1[2], e1[3])], 'straight' if len(g.pw_gamma) > 1 else 'curved'
+        return [(g.pw_gamma[piece_of(g, e1)], e1[2], e1[3])], piece_class(g, e1)
     if e1[3] == e2[2]:
         first, second, seam = e1, e2, False
     elif e2[3] == e1[2]:
@@ -54,7 +70,7 @@ def arc_segments(g, e1, e2):
         raise ValueError(('not adjacent', e1, e2))
     p1, p2 = piece_of(g, first), piece_of(g, second)
     if p1 == p2 and not seam:
-        return [(g.pw_gamma[p1], first[2], second[3])], 'straight' if len(g.pw_gamma) > 1 else 'curved'
+        return [(g.pw_gamma[p1], first[2], second[3])], piece_class(g, first)
     return [(g.pw_gamma[p1], first[2], first[3]), (g.pw_gamma[p2], second[2], second[3])], 'seam' if seam else 'corner'
 
 
@@ -74,7 +90,7 @@ def time_oracle(g, res, e, n):
     key = ('t', res.name, ta, tb, xa, xb, id(gam))
     if key not in _memo:
         _memo[key] = OS.time_patch(res, ta, tb, xa, xb, gam)
-    return _memo[key], 'straight' if len(g.pw_gamma) > 1 else 'curved'
+    return _memo[key], piece_class(g, e)
 
 
 def l2_oracle(g, res, e):
@@ -183,7 +199,7 @@ def task(item):
                         add('time-sum', {'elem': e6, 'residual': res.name, 'order': N})
                     for i, v in ips:
                         n6 = None if i == e.glob_idx else leaf6(by_idx[i])
-                        cl0 = 'straight' if len(g.pw_gamma) > 1 else 'curved'
+                        cl0 = piece_class(g, e6)
                         tol, applies = tol_for(res, cl0, N, 'time')
                         if not applies:
                             continue
@@ -197,7 +213,7 @@ def task(item):
                             add('time-patch-value', {'elem': e6, 'nbr': n6, 'residual': res.name, 'order': N, 'class': cl,
                                                      'value': float(v), 'exact': exact, 'err': err, 'tol': tol})
                 # ---- weighted L2
-                cl0 = 'straight' if len(g.pw_gamma) > 1 else 'curved'
+                cl0 = piece_class(g, e6)
                 tol, applies = tol_for(res, cl0, N, 'l2')
                 if applies:
                     try:
@@ -351,8 +367,9 @@ def symmetry_task(item):
     return out
 
 
-GRAPHS = {'quick': {'UnitSquare': 1, 'PiSquare': 1, 'LShape': 1, 'Circle': 1},
-          'thorough': {'UnitSquare': 2, 'PiSquare': 2, 'LShape': 2, 'Circle': 2, 'LShapeDriver': 1, 'UnitSquare2': 1, 'Circle2': 1}}
+GRAPHS = {'quick': {'UnitSquare': 1, 'PiSquare': 1, 'LShape': 1, 'Circle': 1, 'BigCircleFine': 0, 'StadiumFine': 0, 'ThinRectFine': 0},  # + custom closed curves
+          'thorough': {'UnitSquare': 2, 'PiSquare': 2, 'LShape': 2, 'Circle': 2, 'LShapeDriver': 1, 'UnitSquare2': 1, 'Circle2': 1,
+                       'BigCircleFine': 1, 'StadiumFine': 1, 'ThinRectFine': 1}}
 
 
 def run(ctx):
